@@ -154,7 +154,8 @@ class IK_free_solver(_SolverBase):
                 T.implies(T.SB_lift(success), T.sand(T.le(nw, self.rot_tol), T.le(nv, self.pos_tol))))
 
 
-register(type('IK_constrained_solver_2', (IK_constrained_solver,), dict(n=2)))
+register(type('IK_constrained_solver_1', (IK_constrained_solver,), dict(n=1, shape_bound='1 joint (the invariant is independent of the chain length; 2 joints in the thorough tier)')))
+register(type('IK_constrained_solver_2', (IK_constrained_solver,), dict(n=2, tier='thorough')))
 
 
 # ---------------------------------------------------------------------------------------------------
